@@ -244,7 +244,20 @@ def main(argv=None):
     from mc import pool as cpool
 
     done = 0
-    for idx, r in cpool.imap_unordered(_worker, keys, jobs, init=_init_worker):
+    known_early = load_known(pid)
+    max_fresh = int(os.environ.get("VERIF_MAX_FRESH", "400"))
+    fresh_seen = set()
+    stopped_early = [False]
+
+    def should_stop():
+        # a tree that is broken badly enough to produce hundreds of distinct violations is
+        # decided; stop dispatching (slow, failing cases would otherwise run for hours)
+        if len(fresh_seen) >= max_fresh:
+            stopped_early[0] = True
+            return True
+        return False
+
+    for idx, r in cpool.imap_unordered(_worker, keys, jobs, init=_init_worker, should_stop=should_stop):
         done += 1
         if isinstance(r, cpool.Died):
             # the implementation killed the interpreter while running this case: that is an
@@ -278,6 +291,8 @@ def main(argv=None):
         for v in r["viol"]:
             v["case"] = r["_key"]
             viols.setdefault(vid(v), v)
+            if match_known(known_early, v) is None:
+                fresh_seen.add(vid(v))
 
     extra = {}
     if hasattr(_MOD, "finalize") and not harness_errors:
@@ -383,8 +398,9 @@ def main(argv=None):
         "evaluations": int(agg["n"]),
         "distinct_nontrivial": len(nontrivial),
         "rule": _MOD.RULE,
-        "exhaustive": True,
+        "exhaustive": not stopped_early[0],
         "cases": len(keys),
+        "cases_completed": done,
         "bound": _MOD.BOUND.get(tier, ""),
         "clauses_evaluated": agg["clauses"],
         "distinct_outcomes": len(outcomes),
@@ -412,6 +428,8 @@ def main(argv=None):
         json.dump(ev, f, indent=1, sort_keys=True, default=_jdefault)
         f.write("\n")
 
+    if stopped_early[0]:
+        print(f"stopped dispatching after {len(fresh_seen)} distinct fresh violations ({done} of {len(keys)} cases completed)")
     print(
         f"{pid} tier={tier} seed={seed} cases={len(keys)} states={agg['states']} "
         f"transitions={agg['trans']} impl_calls={agg['n']} nontrivial={len(nontrivial)} "
